@@ -1,7 +1,7 @@
 import RTV.Drv.Proto
 import RTV.Model.Durations
 /-! Driver handlers for L5 `Durations` (BaseDurationParser / BaseSetParser; C10 / C11). Strings are code points (`-` = empty),
-an absent optional is `none`. Configuration fields: `culture` (cps; rows of `RTV.Gen.durationRows`), `extra` = `none` or
+an absent optional is `none`. Configuration fields: `culture` (cps, optionally followed by `/uv` = the variant switches fixUnit, fixValue; rows of `RTV.Gen.durationRows`), `extra` = `none` or
 rows `spelling|code|secs-or-none` joined by `;` (rows of the real `unit_map` the regenerated table does not hold), `dn` =
 `none` or rows `key|num|den` joined by `;` (`double_numbers`, floats as exact ratios).
 Answers: `ok TAB timex TAB str(value)` | `fail` | `err:Other`.
@@ -9,6 +9,7 @@ Answers: `ok TAB timex TAB str(value)` | `fail` | `err:Other`.
   du.fstr text                          -> num/den of float(text)               | err:Other
   du.repr neg num den                   -> repr(float) (cps)
   du.mul neg num den k                  -> str(float_or_int(x * k))             | err:Other
+  du.mulx neg num den k                 -> str(float_or_int(float(Fraction(repr(x)) * k)))   (repaired variant)
   du.space culture extra dn ersCount neg coeff exp fu fuSuf
   du.comb culture extra dn numText|none unit sufNum
   du.an culture extra dn half(0/1)|none unit sufNum
@@ -40,7 +41,11 @@ def parseDn (f : String) : List (List Nat × Dbl) :=
     | [a, n, d] => some (parseCps a, ⟨false, parseNat n, parseNat d⟩)
     | _ => none
 
-def mkCfg (cul extra dn : String) : Cfg := cfgOf (parseCps cul) (parseExtra extra) (parseDn dn)
+def mkCfg (cul extra dn : String) : Cfg :=
+  -- the culture field is `cps` or `cps/uv` with u, v ∈ {0,1}: the variant switches (fixUnit, fixValue)
+  match cul.splitOn "/" with
+  | [c, v] => cfgOf (parseCps c) (parseExtra extra) (parseDn dn) (v.startsWith "1") (v.endsWith "1")
+  | _ => cfgOf (parseCps cul) (parseExtra extra) (parseDn dn)
 
 def showRes : Res → String
   | .fail => "fail"
@@ -81,6 +86,9 @@ def dispatchDurations (op : String) (args : List String) : Option String :=
   | "du.repr", [neg, n, d] => some (showCps (reprDbl ⟨parseBool neg, parseNat n, parseNat d⟩))
   | "du.mul", [neg, n, d, k] =>
     some (match mulNum (floatOrInt ⟨parseBool neg, parseNat n, parseNat d⟩) (parseNat k) with
+      | some v => RTV.Py.toString' (numStr v) | none => "err:Other")
+  | "du.mulx", [neg, n, d, k] =>
+    some (match mulNumFixed (floatOrInt ⟨parseBool neg, parseNat n, parseNat d⟩) (parseNat k) with
       | some v => RTV.Py.toString' (numStr v) | none => "err:Other")
   | "du.space", [cul, ex, dn, cnt, neg, c, e, fu, fuSuf] =>
     some (showRes (numberSpaceUnit (mkCfg cul ex dn) (parseNat cnt) (mkDec neg c e) (optCps fu) (optCps fuSuf)))
